@@ -183,7 +183,8 @@ def ext_kwargs(o):
 
 def call_gni(x, o):
     import emd
-    xa = np.array(x, dtype=float)
+    # an ndarray of a non-float storage type (int64 / int32 / int16 ...) is handed over in that type
+    xa = np.array(x) if (isinstance(x, np.ndarray) and x.dtype.kind in 'iub') else np.array(x, dtype=float)
     xa.setflags(write=False)
     imf, flag = emd.sift.get_next_imf(xa, envelope_opts=env_kwargs(o), extrema_opts=ext_kwargs(o), **imf_kwargs(o))
     return imf, flag
